@@ -521,23 +521,39 @@ func isReset(err error) bool {
 
 // rawExchange writes data under the segmentation schedule and reads the reply stream.
 // rawStall: connect, write data, never read; when release is closed, close the connection.
-func rawStall(network, addr string, data []byte, release <-chan struct{}) (*Exchange, error) {
+func rawStall(h *exchangeHooks, network, addr string, data []byte, release <-chan struct{}) (*Exchange, error) {
 	c, local, err := dialRaw(network, addr)
+	if h != nil && h.afterDial != nil {
+		h.afterDial()
+	}
 	if err != nil {
 		return nil, err
 	}
 	ex := &Exchange{Local: local}
-	c.SetWriteDeadline(time.Now().Add(20 * time.Second))
-	if _, err := c.Write(data); err != nil {
-		ex.WriteErr = err
+	if len(data) > 0 {
+		c.SetWriteDeadline(time.Now().Add(20 * time.Second))
+		if _, err := c.Write(data); err != nil {
+			ex.WriteErr = err
+		}
 	}
 	<-release
 	c.Close()
 	return ex, nil
 }
 
+// afterDialHook, when set in a context of one round, is called by rawExchange right after the connection is established
+// (used to hold many connections open at the same time before any of them sends).
+type exchangeHooks struct{ afterDial func() }
+
 func rawExchange(network, addr string, data []byte, seg Seg, end int, stall time.Duration, slowReadUS ...int) (*Exchange, error) {
+	return rawExchangeH(nil, network, addr, data, seg, end, stall, slowReadUS...)
+}
+
+func rawExchangeH(h *exchangeHooks, network, addr string, data []byte, seg Seg, end int, stall time.Duration, slowReadUS ...int) (*Exchange, error) {
 	c, local, err := dialRaw(network, addr)
+	if h != nil && h.afterDial != nil {
+		h.afterDial()
+	}
 	if err != nil {
 		return nil, err
 	}
